@@ -48,13 +48,17 @@ def gen_stall(rng, info, roles=None):
     dur = None if rng.random() < 0.2 else round(log_uniform(rng, 1e-3, 3600.0), 4)
     fam = role.split(':')[0]
     kinds = [k for k in STALL_KINDS.get(fam, ()) if info['kinds'].get(role, {}).get(k)]
+    # a quarter of the stalls freeze the thread in the middle of a stretch of code that contains
+    # no synchronisation operation at all (k source lines past one), not on the operation itself
+    lines = rng.randint(1, 12) if rng.random() < 0.25 else None
     if kinds and rng.random() < 0.5:
         k = rng.choice(kinds)
         n = rng.randint(1, info['kinds'][role][k])
         return {'role': role, 'index': None, 'duration': dur, 'after_kind': k, 'after_n': n,
-                'after_obj': None}
+                'after_obj': None, 'lines': lines}
     return {'role': role, 'index': rng.randrange(0, max(1, info['nstable'].get(role, 1))),
-            'duration': dur, 'after_kind': None, 'after_n': None, 'after_obj': None}
+            'duration': dur, 'after_kind': None, 'after_n': None, 'after_obj': None,
+            'lines': lines}
 
 
 def gen_net(rng):
